@@ -27,32 +27,32 @@ import sys
 claimed = sys.argv[1:]
 DEFS = {
  "C06": ("exploration",
-   "Seeded search over the environment dimensions the statement names: (B) 16 real CPython interpreters with distinct PYTHONHASHSEEDs and seeded simulated ModelPtr addresses must print byte-identical code for the same samples/options in both layouts - any disagreement is a violation by definition; (A) an in-process order scheduler permutes the iteration order of every volatile set (seeded, per-site streams) to nominate candidates, confirmed by a wide real-interpreter sweep or listed as unconfirmed; (C) the real CLI as a subprocess under 4 hash seeds per workload with samples delivered as one file, many explicit files, plain and recursive glob patterns in one fixed directory; (D) the in-process CLI at two simulated instants (clock jumps, extreme dates) may differ only in the timestamp line, and not at all at the same instant. Sampling, not enumeration.",
+   "Seeded search over the environment dimensions the statement names: (B) 16 real CPython interpreters with distinct PYTHONHASHSEEDs and seeded simulated ModelPtr addresses must print byte-identical code for the same samples/options in both layouts (four of the interpreters also run with asserts stripped, python -O) - any disagreement is a violation by definition; (A) an in-process order scheduler permutes the iteration order of every volatile set (seeded, per-site streams) to nominate candidates, confirmed by a wide real-interpreter sweep or listed as unconfirmed; (C) the real CLI as a subprocess under 4 hash seeds per workload with samples delivered as one file, many explicit files, plain and recursive glob patterns in one fixed directory, with environment variation that is not input (terminal size, HOME, TZ, LC_ALL, -O, working directory, shuffled file modification times) and the same command run twice with relative paths and -o; (D) the in-process CLI at two simulated instants (clock jumps, extreme dates) may differ only in the timestamp line, and not at all at the same instant. Sampling, not enumeration.",
    "DESIGN.md 4.1",
    "Violations come only from real interpreters. Simulated addresses are assumed to be legal memory layouts. The instrumented loader rewrites set constructors only (fidelity is cross-checked against stable real outputs on every run).",
    "deterministic simulation: seeded set-iteration-order scheduler (AST seam) + PYTHONHASHSEED / simulated-address sweep over real interpreters, byte-equality oracle, ddmin attribution to iteration sites"),
  "C07": ("exploration",
-   "Reorder / duplicate fault model on sample deliveries: for seeded base sample lists, seeded permutations and repetitions of already present samples are inferred in pristine processes and the canonical model graph (colour refinement; field order, union member order, numeric name suffixes abstracted) must equal that of the base list. Sampling of permutations/duplications, not enumeration; base lists are generated workload.",
+   "Reorder / duplicate fault model on sample deliveries: for seeded base sample lists, seeded permutations and repetitions of already present samples (single repeats and one sample repeated 40-1100 times), given directly or as files behind scheduled glob enumeration orders, are inferred in pristine processes and the canonical model graph (colour refinement; field order, union member order, numeric name suffixes abstracted) must equal that of the base list. Sampling of permutations/duplications, not enumeration; base lists are generated workload.",
    "DESIGN.md 4.2",
    "Colour refinement is isomorphism-invariant (no false alarms on allowed differences) but could equate two non-isomorphic graphs (detection loss only). Pairs where either side raises are skipped.",
    "deterministic simulation: seeded reordering/duplication of sample deliveries vs reference run, canonical-graph equality oracle, structural shrinking"),
  "C16": ("exploration",
-   "Seeded scenarios (sample sets split over files, lookups, repeated -m/-l, glob patterns; json/yaml/ini; CLI-expressible options) run through the real cli.main() in-process behind simulated seams: scheduled directory-enumeration order, simulated clock (jumps, extreme instants), interposed file objects with an event log. Stdout / -o file after the header must equal the text a small executable reference model of the front end (independent parse + lookup + concatenation in argument order, glob files in observed open order, library pipeline in a pristine fork) returns; -o file must equal the stdout of the same run without -o at the same simulated instant except the command line. Thorough tier cross-checks sampled scenarios against the real CLI subprocess.",
+   "Seeded scenarios (sample sets split over files, lookups, repeated -m/-l, glob patterns with up to 12 files; json/yaml/ini; CLI-expressible options in equivalent spellings: long names, --name=value, any option position, overridden -f/-s, -f custom with a built-in generator; also as the second command of a process whose first command saw older contents at the same paths) run through the real cli.main() in-process behind simulated seams: scheduled directory-enumeration order, simulated clock (jumps, extreme instants), interposed file objects with an event log. Stdout / -o file after the header must equal the text a small executable reference model of the front end (independent parse + lookup + concatenation in argument order, glob files in observed open order, library pipeline in a pristine fork) returns; -o file must equal the stdout of the same run without -o at the same simulated instant except the command line. Thorough tier cross-checks sampled scenarios against the real CLI subprocess.",
    "DESIGN.md 4.5",
    "The reference model encodes my reading of the documented option meanings; option domain restricted accordingly. Sample sets/options are generated workload; the simulated dimensions are enumeration order, clock and file objects.",
    "deterministic simulation: in-process CLI behind simulated directory order / clock / file seams, differential oracle vs executable reference model of the front end, event-log based ordering check"),
  "C17": ("fault_enumeration",
-   "Systematic fault enumeration: for every base scenario (good multi-file CLI scenario whose fault-free controls pass) every fault kind (missing file, dangling symlink, directory, torn/flipped/empty JSON/YAML/INI - kept only if an independent parser fails too -, wrong lookup, non-object sample, non-string keys incl. the integer-key twin of a good sample, 256/512 faulty files at once, invalid arguments, bad framework/generator combinations, raising custom generator, crash injected at seeded line events before the output file is first modified, read errors at open / mid-read) x position of the faulty file (first/middle/last, own argument / glob member) x output mode (stdout, -o absent, -o present with non-UTF-8 sentinel) is executed by the real cli.main() behind simulated seams; oracle: exit status != 0 (low 8 bits, as the OS reports it), no model code on stdout, sentinel bytes identical. Fault-free controls also run with -o pointing at the output of an earlier run (same code / old preamble / extra class) and must leave exactly header(this run) + library text; a real-process control under LC_ALL=C must succeed and write complete UTF-8. Write errors check only 'exit 0 implies complete text'. Thorough tier re-runs sampled scenarios with the real CLI process.",
+   "Systematic fault enumeration: for every base scenario (good multi-file CLI scenario whose fault-free controls pass) every fault kind (missing file, dangling symlink, directory, torn/flipped/empty JSON/YAML/INI - kept only if an independent parser fails too -, wrong lookup, non-object sample, non-string keys incl. the integer-key twin of a good sample, 256/512 faulty files at once, invalid arguments, bad framework/generator combinations, raising custom generator, crash injected at seeded line events before the output file is first modified, read errors at open / mid-read) x position of the faulty file (first/middle/last, own argument / glob member) x output mode (stdout, -o absent, -o present with non-UTF-8 sentinel) is executed by the real cli.main() behind simulated seams; oracle: exit status != 0 (low 8 bits, as the OS reports it), no model code on stdout, sentinel bytes identical. Fault-free controls also run with -o pointing at the output of an earlier run (same code / old preamble / extra class) and must leave exactly header(this run) + library text; a real-process control under LC_ALL=C must succeed and write complete UTF-8. Write errors (interposed open/write/close errors and a real RLIMIT_FSIZE smaller than the text) check only 'exit 0 implies complete text'. Two-command sequences in one process (input changes on disk in between) and awkward but legal arguments / inputs (lone surrogates) check 'non-zero exit implies untouched output'. Thorough tier re-runs sampled scenarios with the real CLI process.",
    "DESIGN.md 4.6",
    "In-process exit-status emulation (SystemExit code / uncaught exception -> 1) is validated against the real process only in the thorough tier. Dynamic I/O faults rely on the CLI opening files through cli.Path.open / cli.open; state faults do not.",
    "deterministic simulation: fault enumeration (state faults in a scratch file system, interposed I/O errors, trace-based crash points) over in-process CLI runs, final-state + event-log oracle"),
  "C14": ("exploration",
-   "Seeded search over process histories: sequences of 2-4 (thorough: up to 6) GEN / RENDER operations over 1-3 registry slots in one process, including calls killed by an injected crash at a seeded line event and in-process CLI runs that mutate the process-global default string-type registry; every non-crashing GEN/RENDER must produce byte-identical output to the same call in a pristine forked process after only the GEN of its slot. Nested layout only on tree-shaped graphs, unicode option fixed per slot (the property's own domain). Sampling of histories, not enumeration.",
+   "Seeded search over process histories: sequences of 2-4 (thorough: up to 6) GEN / RENDER operations over 1-3 registry slots in one process, including calls killed by an injected crash at a seeded line event in-process CLI runs that mutate the process-global default string-type registry, and caller objects re-used across calls (one kwargs dict, one StringSerializableRegistry with types removed in between, one MetadataGenerator, one list of comparators); every non-crashing GEN/RENDER must produce byte-identical output to the same call in a pristine forked process after only the GEN of its slot. Nested layout only on tree-shaped graphs, unicode option fixed per slot (the property's own domain). Sampling of histories, not enumeration.",
    "DESIGN.md 4.3",
    "Both sides run with insertion-ordered sets, so only state carried through the process can make them differ. Inside the claimed domain the absolute-reference mapping is always empty, so an un-restored reference context is not observable here (C15 covers it).",
    "deterministic simulation: seeded history machine with trace-based crash injection, differential oracle vs pristine forked process, ddmin of the operation list"),
  "C15": ("exploration",
-   "Seeded search over thread interleavings: 1-8 independent pipelines on real threads under a baton scheduler that pre-empts at line events inside repository frames, with biases towards the thread-local context code, towards the first execution of every function (with a 'stalled thread' fault that keeps the pre-empted thread off the CPU), towards threads that render shared nested sub-models, share one document with option variations, share the process-global default string-type registry, or process a document nested beyond the default recursion limit; every thread's outcome must equal the outcome of the same pipeline alone in a pristine process. A clean batch is evidence over the sampled interleavings, not proof.",
+   "Seeded search over thread interleavings: 1-8 independent pipelines on real threads under a baton scheduler that pre-empts at line events inside repository frames, with biases towards the thread-local context code, towards the first execution of every function (with a 'stalled thread' fault that keeps the pre-empted thread off the CPU), towards threads that render shared nested sub-models, share one document with option variations, share the process-global default string-type registry, run whole in-process CLI commands (json/yaml/ini input, -o) with frames of the YAML library as additional pre-emption points, re-use a worker thread that generated before, or process a document nested beyond the default recursion limit; every thread's outcome must equal the outcome of the same pipeline alone in a pristine process. A clean batch is evidence over the sampled interleavings, not proof.",
    "DESIGN.md 4.4",
    "Pre-emption granularity is a source line; switches inside C calls / Jinja template bodies are not simulated. Reference runs use insertion-ordered sets (identity order) like the threaded runs.",
    "deterministic simulation: seeded baton-passing thread scheduler (sys.settrace pre-emption points), differential oracle vs pristine-process run, ddmin of the switch list"),
